@@ -23,7 +23,7 @@ META = {
     "assumptions": ["pure-Python predicate evaluator over exact field values is the reference", "datetime thresholds parsed by an independent integer-arithmetic parser"],
     "deciding": ["post:filter", "post:filter_spatial", "history:order/grouping/idempotence"],
 }
-META["added"] = 'Added: histories that leave filters set on the source, origin_time thresholds between two integer milliseconds, zero-valued attributes and thresholds, catalogs already bound to another region (constructor or earlier filter_spatial) before filter_spatial(region). events on the exclusive outer east / north edge with no event beyond the box.'
+META["added"] = 'Added: histories that leave filters set on the source, origin_time thresholds between two integer milliseconds, zero-valued attributes and thresholds, catalogs already bound to another region (constructor or earlier filter_spatial) before filter_spatial(region). events on the exclusive outer east / north edge with no event beyond the box. empty statement lists.'
 MANIFEST = {
     "technique": "runtime post-conditions with OLD snapshots on the real filter / filter_spatial (sub-sequence, bit-identical rows, source untouched when in_place=False, no shared memory) + pure-Python predicate reference + sequential history checker over permutations, groupings, re-application and mixed in_place histories",
     "level_text": "Every call of filter/filter_spatial in the workload is checked against OLD state (kept rows are a bit-identical sub-sequence; source untouched and unshared with in_place=False); kept ids are compared with a pure-Python predicate evaluator; for each case all permutations and all sequential groupings of up to 4 statements, re-application and in_place variants must give the same catalog; datetime statements must equal the origin-time statement of the same instant.",
@@ -165,6 +165,8 @@ def mk(ev, **kw):
 def partitions(seq):
     """All ways to cut a sequence into consecutive non-empty groups."""
     n = len(seq)
+    if n == 0:
+        return
     for cuts in range(1 << max(n - 1, 0)):
         groups, cur = [], [seq[0]]
         for i in range(1, n):
@@ -233,7 +235,8 @@ def ex_filter(ctx, ev, statements, seed=0):
 
     def ctor_filters():
         return mk(ev, filters=list(statements)).filter()
-    expect(got_rows(ctor_filters), "constructor filters= then filter()")
+    if statements:
+        expect(got_rows(ctor_filters), "constructor filters= then filter()")
 
     def reassign_then_same():
         c = mk(ev)
@@ -311,8 +314,8 @@ def ex_spatial(ctx, lat_case, n, seed=0):
                         observed={"kept": len(got), "extra": [g.decode() for g in got if g not in set(want)][:6]}, expected={"inside": len(want)},
                         tags=dict(tags, clause="spatial", in_place=in_place))
         ok2, res2, tb2 = ctx.call(res.filter_spatial, reg, in_place=False)
-        if ok2 and res2.get_event_ids().tolist() != got:
-            ctx.violate("re-applying the spatial filter changes the result", rc, tags=dict(tags, clause="spatial-idempotence"))
+        if not ok2 or res2.get_event_ids().tolist() != got:
+            ctx.violate("re-applying the spatial filter changes the result", rc, observed=None if ok2 else repr(res2), tags=dict(tags, clause="spatial-idempotence"))
     ctx.nt(digest(("sp", lat_case, n, seed)))
 
 
@@ -360,6 +363,8 @@ def run(ctx):
         ev, pool_t, pools = gen_catalog(r, nev)
         k = int(r.choice([1, 1, 2, 3, 4]))
         st = gen_statements(r, pool_t, pools, k)
+        if j % 23 == 5:
+            st = []                       # no statement at all (a programmatically assembled list of optional cuts, none active): every event is kept
         ex_filter(ctx, ev, st, seed=j)
         if j % 7 == 0:
             case = c01.gen_lattice(r, force=int(r.integers(0, 8)))
